@@ -466,6 +466,7 @@ unregister_subtree (DBusObjectSubtree                 *subtree,
 
       subtree->unregister_function = NULL;
       subtree->user_data = NULL;
+      subtree->invoke_as_fallback = FALSE;
 
       return TRUE;
     }
